@@ -66,6 +66,14 @@ func daemonMain(self string) {
 		}
 	case "2":
 		os.Clearenv() // a daemon that wants a minimal, known environment
+	case "3":
+		// the classic hygiene step: close every descriptor above stderr that the process holds at this point (the Go
+		// runtime's own poller descriptors are left alone - closing those is not something a Go program can do)
+		for fd := 3; fd < 64; fd++ {
+			if l, err := os.Readlink(fmt.Sprintf("/proc/self/fd/%d", fd)); err == nil && !strings.Contains(l, "eventpoll") && !strings.Contains(l, "eventfd") {
+				syscall.Close(fd)
+			}
+		}
 	}
 	marker := filepath.Join(dir, fmt.Sprintf("marker.%d", os.Getpid()))
 	// everything the daemon does before Done(): write the marker (atomically)
@@ -156,7 +164,7 @@ func (k kase) String() string {
 		s += " distinctHandlerNames"
 	}
 	if k.cleansEnv > 0 {
-		s += []string{"", " handlerUnsetsDaemonVariables", " handlerClearsItsEnvironment"}[k.cleansEnv]
+		s += []string{"", " handlerUnsetsDaemonVariables", " handlerClearsItsEnvironment", " handlerClosesItsDescriptorsAboveStderr"}[k.cleansEnv]
 	}
 	if k.relativeArgv0 {
 		s += " callerStartedAsDotSlashProg"
@@ -513,7 +521,7 @@ func TestGrid(t *testing.T) {
 				if !rt.Thorough() && child && d == 150 && p == 150 {
 					continue // keep the quick tier short; covered by the thorough tier
 				}
-				k := kase{delayMs: d, pauseMs: p, concurrent: 1, childCaller: child, afterFailed: (d+p)%80 == 45, cleansEnv: idx % 3, relativeArgv0: child && idx%4 == 1, shortLived: idx%5 == 2}
+				k := kase{delayMs: d, pauseMs: p, concurrent: 1, childCaller: child, afterFailed: (d+p)%80 == 45, cleansEnv: idx % 4, relativeArgv0: child && idx%4 == 1, shortLived: idx%5 == 2}
 				if msg := runCase(k); msg != "" {
 					if strings.HasPrefix(msg, "harness:") {
 						rt.Inconclusivef(t, "%s: %s", k, msg)
@@ -560,9 +568,9 @@ func TestGenerated(t *testing.T) {
 			afterFailed: rapid.IntRange(0, 3).Draw(t, "afterFailedLaunch") == 0,
 		}
 		k.distinctNames = k.concurrent >= 2 && rapid.IntRange(0, 2).Draw(t, "distinctNames") > 0
-		k.cleansEnv = rapid.SampledFrom([]int{0, 0, 0, 1, 2}).Draw(t, "handlerCleansEnv")
+		k.cleansEnv = rapid.SampledFrom([]int{0, 0, 0, 1, 2, 3}).Draw(t, "handlerCleansEnv")
 		k.relativeArgv0 = k.childCaller && rapid.IntRange(0, 2).Draw(t, "relativeArgv0") == 0
-		k.nested = k.cleansEnv == 0 && rapid.IntRange(0, 3).Draw(t, "daemonLaunchesAWorker") == 0
+		k.nested = (k.cleansEnv == 0 || k.cleansEnv == 3) && rapid.IntRange(0, 3).Draw(t, "daemonLaunchesAWorker") == 0
 		k.shortLived = !k.nested && rapid.IntRange(0, 3).Draw(t, "handlerReturnsAfterDone") == 0
 		k.ignoresSigint = k.childCaller && rapid.IntRange(0, 2).Draw(t, "callerIgnoresSIGINT") == 0
 		msg := runCase(k)
